@@ -7,6 +7,7 @@ import (
 	"encoding/json"
 	"fmt"
 	"net/http"
+	"regexp"
 	"testing"
 	"time"
 
@@ -60,7 +61,10 @@ type c09fIn struct {
 type c09fStep struct {
 	Refs    []int  `json:"refs,omitempty"`    // init/inherit: identity of each URL rule's limiter (-1 = nil)
 	Code    int    `json:"code"`              // handle: 0 pass, 1 rateLimited(429), 2 panic, 3 other
-	Matches []bool `json:"matches,omitempty"` // oracle row: real URLRule.Match per rule of that generation
+	Matches []bool `json:"matches,omitempty"` // observed: real URLRule.Match per rule of that generation
+	Rx      []bool `json:"rx,omitempty"`      // oracle: Go regexp verdict of each rule's own pattern on the request path
+	Sidx    int    `json:"sidx"`              // handle: index of the spec the generation was built from
+	UPath   string `json:"upath,omitempty"`   // handle: the request path as net/url parsed it
 	Gen     int    `json:"gen"`               // resolved generation index (-1 in the input = latest existing)
 }
 
@@ -132,6 +136,7 @@ func c09fRun(in c09fIn) (obs c09fObs) {
 	defer librl.VerifSetNow(nil)
 	ids := map[*librl.RateLimiter]int{}
 	var gens []*RateLimiter
+	var genSpec []int
 	lastFrom := -1
 	refsOf := func(f *RateLimiter) []int {
 		out := []int{}
@@ -188,11 +193,13 @@ func c09fRun(in c09fIn) (obs c09fObs) {
 					continue
 				}
 				gens = append(gens, f)
+				genSpec = append(genSpec, op.Spec)
 				lastFrom = g
 				obs.Steps = append(obs.Steps, c09fStep{Refs: refsOf(f), Gen: g})
 				continue
 			}
 			gens = append(gens, f)
+			genSpec = append(genSpec, op.Spec)
 			obs.Steps = append(obs.Steps, c09fStep{Refs: refsOf(f)})
 		case "close":
 			// what Pipeline.Inherit does right after filter.Inherit(prev): prev.Close()
@@ -233,6 +240,10 @@ func c09fRun(in c09fIn) (obs c09fObs) {
 			}
 			for _, u := range f.spec.URLs {
 				st.Matches = append(st.Matches, u.Match(std))
+			}
+			st.Sidx, st.UPath, st.Rx = genSpec[g], std.URL.Path, []bool{}
+			for _, u := range in.Specs[genSpec[g]].URLs {
+				st.Rx = append(st.Rx, u.Regex != "" && regexp.MustCompile(u.Regex).MatchString(std.URL.Path))
 			}
 			func() {
 				defer func() {
@@ -333,6 +344,29 @@ func c09fGenSpec(r *vfRand, base *c09fSpec) c09fSpec {
 			u.Prefix = r.PickStr("/a", "/", "/b/")
 		default:
 			u.Regex = r.PickStr("^/a+$", "^/[ab]/.*$", "b$")
+		}
+		if r.Chance(1, 3) {
+			// several alternatives in one rule: each configured one counts
+			switch r.Intn(3) {
+			case 0:
+				if u.Exact == "" {
+					u.Exact = r.PickStr("/a", "/c", "/zzb")
+				} else {
+					u.Prefix = r.PickStr("/b", "/a/", "/")
+				}
+			case 1:
+				if u.Prefix == "" {
+					u.Prefix = r.PickStr("/b", "/a/", "/c")
+				} else {
+					u.Regex = r.PickStr("^/c$", "b$", "^/a+$")
+				}
+			default:
+				if u.Regex == "" {
+					u.Regex = r.PickStr("^/c$", "b$", "^/a+$", "^/b/")
+				} else {
+					u.Exact = r.PickStr("/c", "/b/x")
+				}
+			}
 		}
 		if r.Chance(1, 3) {
 			u.Methods = [][]string{{"GET"}, {"POST"}, {"GET", "POST"}}[r.Intn(3)]
